@@ -5,7 +5,7 @@
    acknowledged ++ prefix of in-flight) is decided per run by crash-point enumeration on the
    real crate (exit before the k-th I/O event, fresh process reopens) with the extracted
    acceptor c07_ok, whose meaning is pinned here. *)
-From W Require Import model.Base model.Engine spec.Queue spec.Crash proofs.EngineWF proofs.EngineInv proofs.EngineRec proofs.CrashP.
+From W Require Import model.Base model.Engine spec.Queue spec.Crash proofs.EngineWF proofs.EngineInv proofs.EngineW proofs.EngineMain proofs.EngineRec proofs.EngineDisk proofs.CrashP.
 
 Theorem c07_acceptor_means : forall acked inflight rec,
   c07_ok acked inflight rec = true <->
@@ -19,8 +19,18 @@ Theorem c07_recovery_of_any_crash_image_partial : forall c, 0 < c_hdr c -> 0 < c
   forall t, chain_ents (rc_get (rc_chains acc') t) = chain_ents (rc_get (rc_chains acc) t) ++ files_ents t nfiles f disk.
 Proof. exact scan_files_complete. Qed.
 
+(* a crash BETWEEN two operations of any admissible history (every append acknowledged so far
+   has completed its write, nothing is in flight): the fresh process rebuilds every topic's
+   stream exactly.  Crash points inside an operation are decided by the enumeration. *)
+Theorem c07_crash_between_operations_partial : forall (c : Cfg) (m : mode) (be : backend) (ops : list op),
+  cfg_ok c -> Forall (op_ok c) ops ->
+  N.of_nat (length (offered_all ops)) <= u64_max -> sum_len (offered_all ops) <= u64_max ->
+  forall t, stream (get_ts (reopen c (exec (env_of c m be) init ops)) t) = stream (get_ts (exec (env_of c m be) init ops) t).
+Proof. exact restart_rebuilds_streams. Qed.
+
 Check c07_acceptor_means : forall acked inflight rec,
   c07_ok acked inflight rec = true <->
   exists k, (k <= length inflight)%nat /\ outs_are rec (acked ++ firstn k inflight) = true.
 Print Assumptions c07_acceptor_means.
 Print Assumptions c07_recovery_of_any_crash_image_partial.
+Print Assumptions c07_crash_between_operations_partial.
